@@ -45,6 +45,25 @@ D.update({
  "C17-m5": {"change": "Windows checksum returns zeros when all five files are empty", "needs": "five empty file arguments"},
  "C18-m5": {"change": "generate_coordinates loops min(count, cells - 1) rounds", "needs": "challenge count equal to the number of cells"},
  "C19-m5": {"change": "num-bigint path: From<u8> goes through from_signed_bytes_le", "needs": "an announced generator >= 128"},
+ "C01-m6": {"change": "NormalizedString::new clears bit 5 of every byte >= 'a' when the input has a lower-case letter, so { | } ~ become [ \\ ] ^", "needs": "a credential containing one of { | } ~ typed once with and once without a lower-case letter"},
+ "C02-m6": {"change": "into_server first reduces the presented A modulo N", "needs": "A + N presented with the M1 computed for A (anticipated from the agent's report: the A + N case was added to the tamper driver before this was run)"},
+ "C03-m6": {"change": "M2 hashes A as a minimal little-endian number instead of the 32-byte field", "needs": "a client public key with a zero top byte (1 in 256)"},
+ "C04-m6": {"change": "check_public_key also refuses 2N mod 2^256 (carry dropped in a shift helper)", "needs": "exactly the array 2N - 2^256"},
+ "C05-m6": {"change": "reconnect proof compared only up to the presented proof's last non-zero byte", "needs": "a prefix of the right proof followed by zero bytes (attempt kind truncProof, added before this was run)"},
+ "C06-m6": {"change": "TBC world client clamps a zero server seed to 1", "needs": "TBC, client role, server seed 0"},
+ "C07-m6": {"change": "vanilla encrypt zips the data with at most two rounds of key bytes", "needs": "a single encrypt call longer than 80 - start bytes"},
+ "C08-m6": {"change": "TBC decrypt handles byte pairs and wraps the position with 'if i >= 20 { i = 0 }'", "needs": "an odd position at the start of a call and a pair covering key positions 19 and 0"},
+ "C09-m6": {"change": "RC4 unrolled by two, first counter step saturating", "needs": "i = 255 at the start of a pair (odd byte count before a call)"},
+ "C10-m6": {"change": "Wrath client Read path resumes a 'pending' long header from a stale marker in the stash", "needs": "a long header completed through the two-step path, then a header through the Read path"},
+ "C11-m6": {"change": "Wrath server read path retries read_exact on WouldBlock up to three times", "needs": "a reader failing with WouldBlock after delivering part of a client header (WouldBlock/TimedOut added to the quick configuration before this was run)"},
+ "C12-m6": {"change": "vanilla is_pair_of folds the key difference with XOR", "needs": "two keys whose byte differences cancel (same mask in two bytes; added to the unsplit driver before this was run)"},
+ "C13-m6": {"change": "SWAR upper-casing of the 16-byte buffer with a borrow between neighbouring bytes", "needs": "one of { | } ~ directly followed by z"},
+ "C14-m6": {"change": "Wrath client reads the fifth header byte with bytes().next().unwrap()", "needs": "a long header cut after four bytes (end of stream)"},
+ "C15-m6": {"change": "reconnect challenge refresh XORs one 64-bit draw cyclically into the old challenge", "needs": "consecutive challenges of one server: old XOR new has equal halves"},
+ "C16-m6": {"change": "remap_pin_grid returns the natural grid when the seed is a multiple of 9!", "needs": "grid seed k * 362880 (k = 1..9 mod 10!)"},
+ "C17-m6": {"change": "Windows checksum drops leading zero bytes of the salt", "needs": "a checksum salt starting with 0x00"},
+ "C18-m6": {"change": "get_number_at_coordinates clamps the exclusive range end to len - 1", "needs": "the last cell of the card"},
+ "C19-m6": {"change": "num-bigint modpow shortcut returns |base| for bases of magnitude <= 1", "needs": "B - k*g^x = -1 on the client (announced small groups)"},
 })
 json.dump(D, open(os.path.join(V, "seeded", "summary.json"), "w"), indent=1)
 n = 0
